@@ -263,6 +263,10 @@ def check_kt_kr(led):
             for nm, val in (('kt', kt12), ('kr', kr12)):
                 if val is None:
                     continue
+                fun_atoms = [a for a in normal(val).atoms() if '<lam:' in a and '(' in a.split('<lam:')[0] and not a.startswith('inv[')]
+                if fun_atoms:
+                    probs.append('%s depends on the laminate stiffnesses through %s: not homogeneous of degree 1 (hence not linear in the moduli)' % (nm, fun_atoms[0][:60]))
+                    continue
                 lam_atoms = [a for a in normal(val).atoms() if '<lam:' in a]
                 from ..poly import DENOMS
                 sub = {a: P.atom(a) * P.atom('$s') for a in lam_atoms}
